@@ -841,8 +841,6 @@ class GroupDomain:
             (r'<' + P + CP + 'double', h_double),
             (r'<' + P + CP + 'add_assign', h_add),
             (r'<' + P + CP + 'add_assign_mixed', h_add),
-            (r'<' + P + CP + 'sub_assign', h_sub),
-            (r'<' + P + CP + 'sub_assign_mixed', h_sub),
             (r'<' + P + CP + 'negate', h_negate),
             (r'<' + A + CA + 'negate', h_negate),
             (r'<' + P + CP + 'into_affine', h_conv('affine')),
